@@ -11,7 +11,7 @@ m = {
            "baseline_off_cmd": "cd /repo && PATH=/opt/veriftools/go1.26.8/bin:$PATH GOFLAGS=-mod=mod GOPROXY=off GOSUMDB=off GOTOOLCHAIN=local go test -mod=mod -json -vet=off -count=1 -timeout 25m ./...",
            "source_commits": claims.get("_fix_commits", []), "add_only": True},
  "engines": [{"name": "dawgsvet", "path": "analyzer/", "serves_properties": sorted(k for k in claims if not k.startswith('_')),
-              "kind_free_text": "custom static analyser (go/packages + go/types + go/cfg + go/ssa, ANTLR grammar model); decides each property from /repo's current source without executing it"}],
+              "kind_free_text": "custom static analyser (go/packages + go/types + go/cfg over type-checked syntax, an AST+CHA call graph, ANTLR grammar model); decides each property from /repo's current source without executing it"}],
  "checks": [], "not_applicable": [],
  "notes": "All checks are static analyses of /repo's working tree (see DESIGN.md). Exit 0 held / 1 violation / 2 undecided (analysis could not be completed; never reported as pass or violation). known_findings.json lists genuine defects recorded rather than repaired."
 }
